@@ -467,6 +467,11 @@ def _local_tracer(frame, event, arg):
     if s is not None and not s.aborting:
         if (event == "opcode" and s.mode == "opcode") or (event == "line" and s.mode == "line"):
             s.yield_point("op")
+            # CPython <= 3.12 snapshots the frame's variables (cells included) into f_locals before calling a trace
+            # function and writes the snapshot BACK into the cells afterwards (PyFrame_LocalsToFast).  Other threads ran
+            # while we were parked in yield_point and may have rebound `stop` / `error_count` / `first_node_error`;
+            # re-reading f_locals refreshes the snapshot, so the write-back cannot undo their updates.
+            frame.f_locals
     return _local_tracer
 
 
